@@ -33,18 +33,10 @@ Proof.
   cbn [join]. destruct l; [exact Ha|]. intro E. apply app_eq_nil in E as [E _]. exact (Ha E).
 Qed.
 
-Definition no_sq (w : str) : bool := negb (existsb (N.eqb SQ) w).
-
-Lemma reread_no_sq w : no_sq w = true -> reread w = w.
-Proof.
-  unfold no_sq. rewrite negb_true_iff. intro H. destruct w as [|c t]; [reflexivity|].
-  apply reread_plain; [exact H|discriminate].
-Qed.
-
-Lemma map_reread_no_sq ws : forallb no_sq ws = true -> map reread ws = ws.
+Lemma map_reread_clean ws : forallb clean ws = true -> map reread ws = ws.
 Proof.
   induction ws as [|w ws IH]; intro H; [reflexivity|].
-  cbn [forallb] in H. apply andb_true_iff in H as [Hw Hs]. cbn [map]. rewrite reread_no_sq, IH; auto.
+  cbn [forallb] in H. apply andb_true_iff in H as [Hw Hs]. cbn [map]. rewrite reread_clean, IH; auto.
 Qed.
 
 (* ================================================================== the glue: a correct extraction cannot launder *)
@@ -85,21 +77,21 @@ Section Glue.
   Qed.
 
   (* if what the handler extracted is what the tool executes, nothing is laundered - for inner
-     commands without a single quote the ladder sees exactly the executed words *)
+     commands whose words are clean (no dollar sign right before a quote) the ladder sees exactly the executed words *)
   Lemma no_launder_of_extract (h : hres) (inners : list (list str)) r :
     h = HWords inners r -> Forall (fun c => c <> []) inners ->
-    forall c, In c inners -> forallb no_sq c = true -> vle (judge r c) (hverdict astr h) = true.
+    forall c, In c inners -> forallb clean c = true -> vle (judge r c) (hverdict astr h) = true.
   Proof.
-    intros -> Hall c Hin Hq. rewrite <- (map_reread_no_sq c Hq) at 1.
+    intros -> Hall c Hin Hq. rewrite <- (map_reread_clean c Hq) at 1.
     apply extracted_never_laundered; assumption.
   Qed.
 
   (* exactness for a single inner command *)
   Lemma exact_of_extract (h : hres) (c : list str) r :
-    h = HWords [c] r -> c <> [] -> forallb no_sq c = true -> hverdict astr h = judge r c.
+    h = HWords [c] r -> c <> [] -> forallb clean c = true -> hverdict astr h = judge r c.
   Proof.
     intros -> Hc Hq. rewrite hverdict_words; [|discriminate|constructor; [exact Hc|constructor]].
-    cbn [map]. rewrite combine_one. rewrite map_reread_no_sq by exact Hq. reflexivity.
+    cbn [map]. rewrite combine_one. rewrite map_reread_clean by exact Hq. reflexivity.
   Qed.
 
   (* an inner command given as a string on the command line (sh -c, env -S) is analysed as it is *)
@@ -107,63 +99,6 @@ Section Glue.
   Proof. intro H. unfold hverdict. cbn [render cls_verdict]. destruct s; [congruence|reflexivity]. Qed.
 End Glue.
 
-(* ================================================================== suffix invariants: a handler never
-   invents, reorders or drops words inside the inner command - it delegates a suffix of the command line *)
-Definition suffix_of {A} (s l : list A) : Prop := exists p, l = p ++ s.
-Lemma suffix_refl {A} (l : list A) : suffix_of l l.
-Proof. exists []. reflexivity. Qed.
-Lemma suffix_cons {A} (x : A) s l : suffix_of s l -> suffix_of s (x :: l).
-Proof. intros [p ->]. exists (x :: p). reflexivity. Qed.
-Lemma suffix_nil {A} (l : list A) : suffix_of [] l.
-Proof. exists l. symmetry. apply app_nil_r. Qed.
-
-Lemma xargs_skip_suffix l : suffix_of (xargs_skip l) l.
-Proof.
-  induction l as [l IH] using list_len_ind.
-  destruct l as [|t r]; [apply suffix_refl|]. cbn [xargs_skip].
-  destruct (is "--" t); [apply suffix_cons, suffix_refl|].
-  destruct (negb (dash t)); [apply suffix_refl|].
-  destruct (mem_str t XARGS_FLAGS_WITH_ARG).
-  - destruct r as [|a r']; [apply suffix_nil|]. apply suffix_cons, suffix_cons, IH. cbn [length]. lia.
-  - apply suffix_cons, IH. cbn [length]. lia.
-Qed.
-
-Lemma docker_inner_suffix l : suffix_of (docker_exec_inner l) l.
-Proof.
-  induction l as [l IH] using list_len_ind.
-  destruct l as [|t r]; [apply suffix_refl|]. cbn [docker_exec_inner].
-  destruct (is "--" t); [apply suffix_cons, suffix_refl|].
-  destruct (mem_str t DOCKER_EXEC_FLAGS_WITH_ARG).
-  - destruct r as [|a r']; [apply suffix_nil|]. apply suffix_cons, suffix_cons, IH. cbn [length]. lia.
-  - destruct (dash t); [apply suffix_cons, IH; cbn [length]; lia | apply suffix_cons, suffix_refl].
-Qed.
-
-Lemma after_ddash_suffix l s : after_ddash l = Some s -> suffix_of s l.
-Proof.
-  revert s. induction l as [|t r IH]; intros s H; [discriminate|]. cbn [after_ddash] in H.
-  destruct (is "--" t).
-  - injection H as <-. apply suffix_cons, suffix_refl.
-  - apply suffix_cons, IH, H.
-Qed.
-
-Lemma env_scan_words_suffix l c r : env_scan l = HWords [c] r -> suffix_of c l /\ r = false.
-Proof.
-  revert c r. induction l as [l IH] using list_len_ind.
-  intros c r H. destruct l as [|t rest]; [discriminate|]. cbn [env_scan] in H.
-  destruct (is "--" t).
-  { destruct rest; [discriminate|]. injection H as <- <-. split; [apply suffix_cons, suffix_refl|reflexivity]. }
-  destruct (mem_str t ENV_SPLIT_FLAGS && nonempty rest); [discriminate|].
-  destruct (prefixb SPLIT_EQ t); [discriminate|].
-  destruct (starts "-S" t && Nat.ltb 2 (length t)); [discriminate|].
-  destruct (mem_str t ENV_FLAGS_WITH_ARG).
-  { destruct rest as [|a rest']; [discriminate|].
-    destruct (IH rest' ltac:(cbn [length]; lia) c r H) as [S R]. split; [apply suffix_cons, suffix_cons, S|exact R]. }
-  destruct (dash t).
-  { destruct (IH rest ltac:(cbn [length]; lia) c r H) as [S R]. split; [apply suffix_cons, S|exact R]. }
-  destruct (has_eq t).
-  { destruct (IH rest ltac:(cbn [length]; lia) c r H) as [S R]. split; [apply suffix_cons, S|exact R]. }
-  injection H as <- <-. split; [apply suffix_refl|reflexivity].
-Qed.
 
 (* ================================================================== words *)
 Lemma dash_false_cases w : dash w = false -> w = [] \/ exists c cs, w = c :: cs /\ c <> 45.
@@ -222,703 +157,3 @@ Proof.
   rewrite <- (app_nil_r p) in H at 2. apply app_inv_head in H. congruence.
 Qed.
 
-(* ================================================================== docker exec (C13_extract) *)
-(* the option spellings on which the handler and docker agree *)
-Definition DK_BOOL_WORDS : list str :=
-  map s2l ["-d"; "-i"; "-t"; "-it"; "-ti"; "-di"; "-id"; "-dt"; "-td"; "-dit"; "-itd"; "-tid";
-           "--detach"; "--interactive"; "--tty"; "--privileged"].
-Definition DK_VAL_FLAGS : list str := map s2l ["-e"; "--env"; "-w"; "--workdir"; "-u"; "--user"; "--env-file"].
-Definition DK_LONG_EQ : list str := map s2l ["--env="; "--workdir="; "--user="; "--env-file="; "--detach-keys="].
-Definition DK_SHORT_ATT : list str := map s2l ["-e"; "-w"; "-u"].
-
-Inductive dk_opts : list str -> Prop :=
-| dk_nil : dk_opts []
-| dk_bool w r : In w DK_BOOL_WORDS -> dk_opts r -> dk_opts (w :: r)                     (* -i -it --tty ... *)
-| dk_sep f v r : In f DK_VAL_FLAGS -> dk_opts r -> dk_opts (f :: v :: r)                 (* -e V, --env V: V is ANY word *)
-| dk_eq p v r : In p DK_LONG_EQ -> dk_opts r -> dk_opts ((p ++ v) :: r)                  (* --env=V *)
-| dk_att p v r : In p DK_SHORT_ATT -> v <> [] -> dk_opts r -> dk_opts ((p ++ v) :: r).   (* -eV *)
-
-Lemma dk_bool_facts : forallb (fun w => negb (is "--" w) && negb (mem_str w DOCKER_EXEC_FLAGS_WITH_ARG) && dash w) DK_BOOL_WORDS = true.
-Proof. vm_compute. reflexivity. Qed.
-Lemma dk_val_facts : forallb (fun f => negb (is "--" f) && mem_str f DOCKER_EXEC_FLAGS_WITH_ARG) DK_VAL_FLAGS = true.
-Proof. vm_compute. reflexivity. Qed.
-Lemma dk_table_no_eq : forallb (fun e => negb (has_eq e)) DOCKER_EXEC_FLAGS_WITH_ARG = true.
-Proof. vm_compute. reflexivity. Qed.
-Lemma dk_eq_facts : forallb (fun p => dash p && has_eq p && Nat.ltb 2 (length p)) DK_LONG_EQ = true.
-Proof. vm_compute. reflexivity. Qed.
-Lemma dk_att_facts : forallb (fun p => dash p && Nat.eqb (length p) 2 &&
-   forallb (fun e => negb (prefixb p e) || str_eqb e p) DOCKER_EXEC_FLAGS_WITH_ARG) DK_SHORT_ATT = true.
-Proof. vm_compute. reflexivity. Qed.
-
-Lemma dk_h_skip1 w r : dash w = true -> is "--" w = false -> mem_str w DOCKER_EXEC_FLAGS_WITH_ARG = false ->
-  docker_exec_inner (w :: r) = docker_exec_inner r.
-Proof. intros H1 H2 H3. cbn [docker_exec_inner]. rewrite H2, H3, H1. reflexivity. Qed.
-
-Lemma dk_handler opts : dk_opts opts -> forall ctr cmd, dash ctr = false -> is "--" ctr = false ->
-  mem_str ctr DOCKER_EXEC_FLAGS_WITH_ARG = false -> docker_exec_inner (opts ++ ctr :: cmd) = cmd.
-Proof.
-  induction 1 as [|w r Hw _ IH|f v r Hf _ IH|p v r Hp _ IH|p v r Hp Hv _ IH]; intros ctr cmd Hd Hdd Hm.
-  - cbn [app docker_exec_inner]. rewrite Hdd, Hm, Hd. reflexivity.
-  - pose proof (proj1 (forallb_forall _ _) dk_bool_facts w Hw) as F. cbv beta in F.
-    rewrite !andb_true_iff, !negb_true_iff in F. destruct F as [[F1 F2] F3].
-    cbn [app]. rewrite dk_h_skip1 by assumption. apply IH; assumption.
-  - pose proof (proj1 (forallb_forall _ _) dk_val_facts f Hf) as F. cbv beta in F.
-    rewrite andb_true_iff, negb_true_iff in F. destruct F as [F1 F2].
-    cbn [app docker_exec_inner]. rewrite F1, F2. apply IH; assumption.
-  - pose proof (proj1 (forallb_forall _ _) dk_eq_facts p Hp) as F. cbv beta in F.
-    rewrite !andb_true_iff in F. destruct F as [[F1 F2] F3]. apply Nat.ltb_lt in F3.
-    cbn [app]. rewrite dk_h_skip1.
-    + apply IH; assumption.
-    + apply dash_app, F1.
-    + apply is_ddash_long. rewrite app_length. lia.
-    + apply mem_str_false_of_eq; [apply has_eq_app_l, F2|exact dk_table_no_eq].
-  - pose proof (proj1 (forallb_forall _ _) dk_att_facts p Hp) as F. cbv beta in F.
-    rewrite !andb_true_iff in F. destruct F as [[F1 F2] F3]. apply Nat.eqb_eq in F2.
-    cbn [app]. rewrite dk_h_skip1.
-    + apply IH; assumption.
-    + apply dash_app, F1.
-    + apply is_ddash_long. rewrite app_length. destruct v; [congruence|cbn [length]; lia].
-    + apply mem_str_no_extension; assumption.
-Qed.
-
-Lemma dk_spec opts : dk_opts opts -> forall ctr cmd, dash ctr = false ->
-  pflag docker_exec_flags false (opts ++ ctr :: cmd) = POk (ctr :: cmd) None false.
-Proof.
-  induction 1 as [|w r Hw _ IH|f v r Hf _ IH|p v r Hp _ IH|p v r Hp Hv _ IH]; intros ctr cmd Hd.
-  - cbn [app pflag]. rewrite (word_kind_operand ctr Hd). reflexivity.
-  - cbn [app]. rewrite <- (IH ctr cmd Hd).
-    repeat (destruct Hw as [<-|Hw]; [reflexivity|]). destruct Hw.
-  - cbn [app]. rewrite <- (IH ctr cmd Hd).
-    repeat (destruct Hf as [<-|Hf]; [reflexivity|]). destruct Hf.
-  - cbn [app]. rewrite <- (IH ctr cmd Hd).
-    repeat (destruct Hp as [<-|Hp]; [reflexivity|]). destruct Hp.
-  - cbn [app]. rewrite <- (IH ctr cmd Hd). destruct v as [|c cs]; [congruence|].
-    repeat (destruct Hp as [<-|Hp]; [reflexivity|]). destruct Hp.
-Qed.
-
-(* the handler extracts exactly the command docker sends to the container, for every inner command *)
-Lemma docker_extract opts ctr cmd :
-  dk_opts opts -> dash ctr = false -> cmd <> [] ->
-  docker_exec_inner (opts ++ ctr :: cmd) = cmd /\ docker_exec_args (opts ++ ctr :: cmd) = Some [cmd].
-Proof.
-  intros Ho Hd Hc. split.
-  - apply dk_handler; try assumption.
-    + destruct (dash_false_cases ctr Hd) as [->|(c & cs & -> & Hn)]; [reflexivity|].
-      unfold is. destruct (str_eqb_spec (c :: cs) (s2l "--")) as [E|]; [|reflexivity].
-      injection E as E _. subst c. exfalso. apply Hn. reflexivity.
-    + destruct (mem_str ctr DOCKER_EXEC_FLAGS_WITH_ARG) eqn:E; [|reflexivity].
-      apply mem_str_In in E.
-      assert (F : forallb dash DOCKER_EXEC_FLAGS_WITH_ARG = true) by (vm_compute; reflexivity).
-      rewrite (proj1 (forallb_forall _ _) F ctr E) in Hd. discriminate.
-  - unfold docker_exec_args. rewrite dk_spec by assumption. cbn [joinpos].
-    destruct cmd as [|c cs]; [congruence|]. reflexivity.
-Qed.
-
-(* the whole handler / the whole docker command line, for  docker exec ...  and  podman exec ... *)
-Lemma docker_h_exec base rest :
-  In base [s2l "docker"; s2l "podman"] ->
-  docker_h (base :: s2l "exec" :: rest) =
-  Some (match docker_exec_inner rest with [] => HAsk | inner => HWords [inner] true end).
-Proof. intros [<-|[<-|[]]]; reflexivity. Qed.
-
-Lemma docker_spec_exec rest : docker_exec (s2l "exec" :: rest) = docker_exec_args rest.
-Proof. reflexivity. Qed.
-
-Lemma docker_extract_full base opts ctr cmd :
-  In base [s2l "docker"; s2l "podman"] -> dk_opts opts -> dash ctr = false -> cmd <> [] ->
-  modelled (base :: s2l "exec" :: opts ++ ctr :: cmd) = Some (HWords [cmd] true) /\
-  wrapper_exec (base :: s2l "exec" :: opts ++ ctr :: cmd) = Some [cmd].
-Proof.
-  intros Hb Ho Hd Hc. destruct (docker_extract opts ctr cmd Ho Hd Hc) as [E1 E2]. split.
-  - assert (M : modelled (base :: s2l "exec" :: opts ++ ctr :: cmd) = docker_h (base :: s2l "exec" :: opts ++ ctr :: cmd)).
-    { destruct Hb as [<-|[<-|[]]]; reflexivity. }
-    rewrite M, docker_h_exec by exact Hb. rewrite E1. destruct cmd; [congruence|reflexivity].
-  - assert (W : wrapper_exec (base :: s2l "exec" :: opts ++ ctr :: cmd) = docker_exec (s2l "exec" :: opts ++ ctr :: cmd)).
-    { destruct Hb as [<-|[<-|[]]]; reflexivity. }
-    rewrite W, docker_spec_exec. exact E2.
-Qed.
-
-(* where the extraction is NOT what docker runs (each confirmed with the real docker client):
-   -- before the container, a cluster ending in a value flag, a value flag missing from the table *)
-Definition w (l : list string) : list str := map s2l l.
-Lemma docker_extract_refuted :
-  (modelled (w ["docker"; "exec"; "--"; "ls"; "rm"; "x"]) = Some (HWords [w ["ls"; "rm"; "x"]] true) /\
-   wrapper_exec (w ["docker"; "exec"; "--"; "ls"; "rm"; "x"]) = Some [w ["rm"; "x"]]) /\
-  (modelled (w ["docker"; "exec"; "-ie"; "A=1"; "ls"; "rm"; "x"]) = Some (HWords [w ["ls"; "rm"; "x"]] true) /\
-   wrapper_exec (w ["docker"; "exec"; "-ie"; "A=1"; "ls"; "rm"; "x"]) = Some [w ["rm"; "x"]]) /\
-  (modelled (w ["docker"; "exec"; "--detach-keys"; "a"; "cat"; "rm"; "x"]) = Some (HWords [w ["cat"; "rm"; "x"]] true) /\
-   wrapper_exec (w ["docker"; "exec"; "--detach-keys"; "a"; "cat"; "rm"; "x"]) = Some [w ["rm"; "x"]]).
-Proof. vm_compute. repeat split; reflexivity. Qed.
-
-(* ================================================================== kubectl exec *)
-(* words between exec and -- on which handler and kubectl agree: pod names, boolean flags, value
-   flags with a separate value that is NOT the word -- , =-joined values *)
-Definition KC_BOOL_WORDS : list str := map s2l ["-i"; "-t"; "-it"; "-ti"; "-q"; "--stdin"; "--tty"; "--quiet"].
-Definition KC_VAL_FLAGS : list str := map s2l ["-c"; "--container"; "-n"; "--namespace"; "-f"; "--filename"; "--context"; "--cluster"; "--kubeconfig"; "--cache-dir"].
-Definition KC_LONG_EQ : list str := map s2l ["--container="; "--namespace="; "--filename="; "--context="; "--kubeconfig="; "--pod-running-timeout="].
-Inductive kc_mid : list str -> list str -> Prop :=     (* words, the positionals among them *)
-| kc_nil : kc_mid [] []
-| kc_pos p r ps : dash p = false -> kc_mid r ps -> kc_mid (p :: r) (p :: ps)
-| kc_bool b r ps : In b KC_BOOL_WORDS -> kc_mid r ps -> kc_mid (b :: r) ps
-| kc_sep f v r ps : In f KC_VAL_FLAGS -> is "--" v = false -> kc_mid r ps -> kc_mid (f :: v :: r) ps
-| kc_eq p v r ps : In p KC_LONG_EQ -> kc_mid r ps -> kc_mid ((p ++ v) :: r) ps.
-
-Lemma kc_handler mid ps : kc_mid mid ps -> forall cmd, after_ddash (mid ++ s2l "--" :: cmd) = Some cmd.
-Proof.
-  induction 1 as [|p r ps Hp _ IH|b r ps Hb _ IH|f v r ps Hf Hv _ IH|p v r ps Hp _ IH]; intro cmd.
-  - reflexivity.
-  - cbn [app after_ddash].
-    assert (E : is "--" p = false).
-    { destruct (dash_false_cases p Hp) as [->|(c & cs & -> & Hn)]; [reflexivity|].
-      unfold is. destruct (str_eqb_spec (c :: cs) (s2l "--")) as [E|]; [|reflexivity].
-      injection E as E _. subst c. exfalso. apply Hn. reflexivity. }
-    rewrite E. apply IH.
-  - cbn [app after_ddash].
-    assert (F : forallb (fun b => negb (is "--" b)) KC_BOOL_WORDS = true) by (vm_compute; reflexivity).
-    pose proof (proj1 (forallb_forall _ _) F b Hb) as E. cbv beta in E. apply negb_true_iff in E. rewrite E. apply IH.
-  - cbn [app after_ddash].
-    assert (F : forallb (fun b => negb (is "--" b)) KC_VAL_FLAGS = true) by (vm_compute; reflexivity).
-    pose proof (proj1 (forallb_forall _ _) F f Hf) as E. cbv beta in E. apply negb_true_iff in E. rewrite E, Hv. apply IH.
-  - cbn [app after_ddash].
-    assert (F : forallb (fun p => Nat.ltb 2 (length p)) KC_LONG_EQ = true) by (vm_compute; reflexivity).
-    pose proof (proj1 (forallb_forall _ _) F p Hp) as E. cbv beta in E. apply Nat.ltb_lt in E.
-    rewrite is_ddash_long by (rewrite app_length; lia). apply IH.
-Qed.
-
-Lemma kc_spec mid ps : kc_mid mid ps -> forall cmd,
-  pflag kubectl_flags true (mid ++ s2l "--" :: cmd) = POk ps (Some cmd) false.
-Proof.
-  induction 1 as [|p r ps Hp _ IH|b r ps Hb _ IH|f v r ps Hf Hv _ IH|p v r ps Hp _ IH]; intro cmd.
-  - reflexivity.
-  - cbn [app pflag]. rewrite (word_kind_operand p Hp). cbn iota. rewrite IH. reflexivity.
-  - cbn [app]. rewrite <- (IH cmd).
-    repeat (destruct Hb as [<-|Hb]; [reflexivity|]). destruct Hb.
-  - cbn [app]. rewrite <- (IH cmd).
-    repeat (destruct Hf as [<-|Hf]; [reflexivity|]). destruct Hf.
-  - cbn [app]. rewrite <- (IH cmd).
-    repeat (destruct Hp as [<-|Hp]; [reflexivity|]). destruct Hp.
-Qed.
-
-Lemma kubectl_extract base mid ps cmd :
-  In base [s2l "kubectl"; s2l "k"] -> kc_mid mid ps -> cmd <> [] ->
-  modelled (base :: s2l "exec" :: mid ++ s2l "--" :: cmd) = Some (HWords [cmd] true) /\
-  kubectl_exec (s2l "exec" :: mid ++ s2l "--" :: cmd) = Some [cmd].
-Proof.
-  intros Hb Hm Hc. split.
-  - assert (M : modelled (base :: s2l "exec" :: mid ++ s2l "--" :: cmd) =
-                Some (match after_ddash (mid ++ s2l "--" :: cmd) with Some (c :: cs) => HWords [c :: cs] true | _ => HAsk end)).
-    { destruct Hb as [<-|[<-|[]]]; reflexivity. }
-    rewrite M, (kc_handler mid ps Hm). destruct cmd; [congruence|reflexivity].
-  - unfold kubectl_exec. cbn [pflag]. change (word_kind (s2l "exec")) with WOperand. cbn iota.
-    rewrite (kc_spec mid ps Hm). cbn [pcons]. change (str_eqb (s2l "exec") (S "exec")) with true. cbn iota.
-    destruct cmd; [congruence|reflexivity].
-Qed.
-
-(* a value flag may swallow the word -- : the handler then cuts at the wrong place *)
-Lemma kubectl_extract_refuted :
-  modelled (w ["kubectl"; "exec"; "--cache-dir"; "--"; "ls"; "--"; "rm"; "x"]) = Some (HWords [w ["ls"; "--"; "rm"; "x"]] true) /\
-  wrapper_exec (w ["kubectl"; "exec"; "--cache-dir"; "--"; "ls"; "--"; "rm"; "x"]) = Some [w ["rm"; "x"]].
-Proof. vm_compute. split; reflexivity. Qed.
-
-(* ================================================================== sh / bash -c *)
-Lemma after_c_skip pre r : Forall (fun x => is_c_flag x = false) pre -> after_c (pre ++ r) = after_c r.
-Proof.
-  induction pre as [|a pre IH]; intro H; [reflexivity|]. inversion H as [|? ? Ha Hp]; subst.
-  cbn [app after_c]. rewrite Ha. apply IH, Hp.
-Qed.
-
-(* whatever non--c words come first: the word after the first c-flag is the analysed string *)
-Lemma shell_c_extract base pre cflag s rest :
-  is_c_flag base = false -> Forall (fun x => is_c_flag x = false) pre -> is_c_flag cflag = true -> s <> [] ->
-  shell_h (base :: pre ++ cflag :: s :: rest) = HString s.
-Proof.
-  intros Hb Hp Hc Hs. unfold shell_h.
-  assert (E : after_c (base :: pre ++ cflag :: s :: rest) = Some (s :: rest)).
-  { cbn [after_c]. rewrite Hb. rewrite after_c_skip by exact Hp. cbn [after_c]. rewrite Hc. reflexivity. }
-  destruct (pre ++ cflag :: s :: rest) as [|x xs] eqn:L.
-  - destruct pre; discriminate.
-  - rewrite E. destruct s; [congruence|reflexivity].
-Qed.
-
-Definition optlike (s : str) : bool := match s with c :: _ => N.eqb c 45 || N.eqb c 43 | [] => false end.
-
-Lemma sh_short_operand cl s rest wc ws :
-  optlike s = false -> sh_short cl (s :: rest) wc ws O = bash_finish wc ws (s :: rest).
-Proof.
-  intro H. cbn [sh_short]. destruct s as [|c [|d cs]].
-  - reflexivity.
-  - cbn [optlike] in H. apply orb_false_iff in H as [H1 H2]. cbn [str_eqb]. rewrite H1. reflexivity.
-  - cbn [optlike] in H. cbn [str_eqb]. rewrite H. apply orb_false_iff in H as [H1 H2]. rewrite H1. reflexivity.
-Qed.
-
-(* bash -c S ... and sh -c S ... run the string S (S not shaped like a further option) *)
-Lemma shell_c_spec s rest :
-  optlike s = false ->
-  bash_exec (s2l "-c" :: s :: rest) = Some (SString s) /\ dash_exec (s2l "-c" :: s :: rest) = Some (SString s).
-Proof.
-  intro H. split.
-  - unfold bash_exec. cbn [bash_long]. change (bash_long_name (s2l "-c")) with (Some (s2l "c", false)).
-    cbv iota beta.
-    change (mem_str (s2l "c") BASH_LONG_NOARG) with false. change (mem_str (s2l "c") BASH_LONG_ARG) with false.
-    change (mem_str (s2l "c") [S "help"; S "version"]) with false. cbv iota.
-    change (sh_short bash_cluster (s2l "-c" :: s :: rest) false false O) with (sh_short bash_cluster (s :: rest) true false O).
-    rewrite sh_short_operand by exact H. reflexivity.
-  - unfold dash_exec.
-    change (sh_short dash_cluster (s2l "-c" :: s :: rest) false false O) with (sh_short dash_cluster (s :: rest) true false O).
-    rewrite sh_short_operand by exact H. reflexivity.
-Qed.
-
-(* where the handler is wrong about what the shell runs (each confirmed with real bash/dash) *)
-Lemma shell_extract_refuted :
-  (modelled (w ["bash"; "script.sh"; "-c"; "ls"]) = Some (HString (s2l "ls")) /\
-   shell_exec (w ["bash"; "script.sh"; "-c"; "ls"]) = Some (SFile (s2l "script.sh"))) /\
-  (modelled (w ["sh"; "script.sh"; "-c"; "ls"]) = Some (HString (s2l "ls")) /\
-   shell_exec (w ["sh"; "script.sh"; "-c"; "ls"]) = Some (SFile (s2l "script.sh"))) /\
-  (modelled (w ["bash"; "-rcfile"; "ls"; "-c"; "rm x"]) = Some (HString (s2l "ls")) /\
-   shell_exec (w ["bash"; "-rcfile"; "ls"; "-c"; "rm x"]) = Some (SString (s2l "rm x"))).
-Proof. vm_compute. repeat split; reflexivity. Qed.
-
-(* ================================================================== find *)
-Definition find_word_ok (x : str) : bool :=
-  negb (mem_str x FIND_TERMINATORS) && negb (mem_str x FIND_OK_FLAGS) && negb (is "-delete" x)
-  && negb (str_eqb x (S ";")) && negb (str_eqb x (S "+")).
-Definition plain_path (p : str) : bool := negb (dash p) && negb (mem_str p (map s2l ["("; ")"; "!"; ","])).
-
-Lemma find_clause_h c : forall acc t rest,
-  forallb find_word_ok c = true -> mem_str t FIND_TERMINATORS = true -> rev acc ++ c <> [] ->
-  find_clauses (c ++ t :: rest) (Some acc) =
-  match find_clauses rest None with Some cs => Some ((rev acc ++ c) :: cs) | None => None end.
-Proof.
-  induction c as [|x c IH]; intros acc t rest Hc Ht Hne.
-  - cbn [app find_clauses]. rewrite Ht. rewrite app_nil_r in *. destruct acc as [|a acc].
-    + cbn in Hne. congruence.
-    + reflexivity.
-  - cbn [forallb] in Hc. apply andb_true_iff in Hc as [Hx Hc]. unfold find_word_ok in Hx.
-    rewrite !andb_true_iff, !negb_true_iff in Hx. destruct Hx as [[[[X1 X2] X3] X4] X5].
-    cbn [app find_clauses]. rewrite X1. rewrite IH; try assumption.
-    + cbn [rev]. rewrite <- app_assoc. reflexivity.
-    + cbn [rev]. rewrite <- app_assoc. cbn [app]. destruct (rev acc); discriminate.
-Qed.
-
-Lemma dash_false_mem p T : dash p = false -> forallb dash T = true -> mem_str p T = false.
-Proof.
-  intros Hp HT. destruct (mem_str p T) eqn:E; [|reflexivity]. apply mem_str_In in E.
-  rewrite (proj1 (forallb_forall _ _) HT p E) in Hp. discriminate.
-Qed.
-
-Lemma find_paths_h paths : forall l, forallb plain_path paths = true ->
-  find_clauses (paths ++ l) None = find_clauses l None.
-Proof.
-  induction paths as [|p ps IH]; intros l H; [reflexivity|].
-  cbn [forallb] in H. apply andb_true_iff in H as [Hp Hs]. unfold plain_path in Hp.
-  apply andb_true_iff in Hp as [Hd _]. apply negb_true_iff in Hd.
-  cbn [app find_clauses]. rewrite (dash_false_mem p FIND_EXEC_FLAGS Hd) by (vm_compute; reflexivity).
-  apply IH; assumption.
-Qed.
-
-Lemma find_blocked_app a b : find_blocked (a ++ b) = find_blocked a || find_blocked b.
-Proof. unfold find_blocked. apply existsb_app. Qed.
-
-Lemma find_extract_h paths c :
-  forallb plain_path paths = true -> forallb find_word_ok c = true -> c <> [] ->
-  find_h (s2l "find" :: paths ++ s2l "-exec" :: c ++ [s2l ";"]) = HWords [c] false.
-Proof.
-  intros Hp Hc Hne. unfold find_h.
-  assert (B : find_blocked (s2l "find" :: paths ++ s2l "-exec" :: c ++ [s2l ";"]) = false).
-  { change (s2l "find" :: paths ++ s2l "-exec" :: c ++ [s2l ";"]) with ([s2l "find"] ++ paths ++ [s2l "-exec"] ++ c ++ [s2l ";"]).
-    rewrite !find_blocked_app.
-    replace (find_blocked [s2l "find"]) with false by (vm_compute; reflexivity).
-    replace (find_blocked [s2l "-exec"]) with false by (vm_compute; reflexivity).
-    replace (find_blocked [s2l ";"]) with false by (vm_compute; reflexivity).
-    assert (P : find_blocked paths = false).
-    { unfold find_blocked. apply not_true_is_false. intro E. apply existsb_exists in E as [x [Hx E]].
-      pose proof (proj1 (forallb_forall _ _) Hp x Hx) as Q. unfold plain_path in Q.
-      apply andb_true_iff in Q as [Q _]. apply negb_true_iff in Q.
-      rewrite (dash_false_mem x FIND_OK_FLAGS Q) in E by (vm_compute; reflexivity).
-      cbn [orb] in E. unfold is in E. apply str_eqb_eq in E. subst x. discriminate. }
-    assert (C : find_blocked c = false).
-    { unfold find_blocked. apply not_true_is_false. intro E. apply existsb_exists in E as [x [Hx E]].
-      pose proof (proj1 (forallb_forall _ _) Hc x Hx) as Q. unfold find_word_ok in Q.
-      rewrite !andb_true_iff, !negb_true_iff in Q. destruct Q as [[[[_ Q2] Q3] _] _].
-      rewrite Q2, Q3 in E. discriminate. }
-    rewrite P, C. reflexivity. }
-  rewrite B.
-  assert (E : find_clauses (s2l "find" :: paths ++ s2l "-exec" :: c ++ [s2l ";"]) None = Some [c]).
-  { cbn [find_clauses]. replace (mem_str (s2l "find") FIND_EXEC_FLAGS) with false by (vm_compute; reflexivity).
-    rewrite find_paths_h by exact Hp. cbn [find_clauses].
-    replace (mem_str (s2l "-exec") FIND_EXEC_FLAGS) with true by (vm_compute; reflexivity).
-    rewrite (find_clause_h c [] (s2l ";") []); try assumption.
-    - reflexivity.
-    - vm_compute. reflexivity. }
-  rewrite E. reflexivity.
-Qed.
-
-(* specification side *)
-Lemma plain_path_lead p :
-  plain_path p = true ->
-  mem_str p (map s2l ["-H"; "-L"; "-P"]) = false /\ str_eqb p (S "-D") = false /\
-  prefixb (S "-O") p = false /\ looks_like_expr p = false.
-Proof.
-  unfold plain_path. rewrite andb_true_iff, !negb_true_iff. intros [Hd Hm].
-  destruct (dash_false_cases p Hd) as [->|(c & cs & -> & Hn)].
-  - repeat split; reflexivity.
-  - apply N.eqb_neq in Hn. repeat split.
-    + apply dash_false_mem; [exact Hd|vm_compute; reflexivity].
-    + change (S "-D") with [45; 68]. cbn [str_eqb]. rewrite Hn. reflexivity.
-    + change (S "-O") with [45; 79]. cbn [prefixb]. rewrite N.eqb_sym, Hn. reflexivity.
-    + unfold looks_like_expr. cbn [dashb]. rewrite Hn, Hm. reflexivity.
-Qed.
-
-Lemma find_spec_clause c : forall acc b,
-  forallb find_word_ok c = true -> rev acc ++ c <> [] ->
-  find_run (c ++ [S ";"]) (FClause acc b) = Some [rev acc ++ c].
-Proof.
-  induction c as [|x c IH]; intros acc b Hc Hne.
-  - cbn [app find_run]. change (str_eqb (S ";") (S ";")) with true. cbn [orb]. rewrite app_nil_r in *.
-    destruct acc; [cbn in Hne; congruence|reflexivity].
-  - cbn [forallb] in Hc. apply andb_true_iff in Hc as [Hx Hc]. unfold find_word_ok in Hx.
-    rewrite !andb_true_iff, !negb_true_iff in Hx. destruct Hx as [[[[X1 X2] X3] X4] X5].
-    cbn [app find_run]. rewrite X4, X5. cbn [orb andb]. rewrite IH; try assumption.
-    + cbn [rev]. rewrite <- app_assoc. reflexivity.
-    + cbn [rev]. rewrite <- app_assoc. cbn [app]. destruct (rev acc); discriminate.
-Qed.
-
-Lemma find_spec_paths paths l :
-  forallb plain_path paths = true -> paths <> [] ->
-  find_run (paths ++ l) FLead = find_run l FPaths.
-Proof.
-  intros H Hne. destruct paths as [|p ps]; [congruence|]. clear Hne.
-  cbn [forallb] in H. apply andb_true_iff in H as [Hp Hs].
-  destruct (plain_path_lead p Hp) as (A & B & C & D).
-  cbn [app find_run]. rewrite A, B, C, D. cbn iota.
-  clear Hp A B C D. induction ps as [|q ps IH]; [reflexivity|].
-  cbn [forallb] in Hs. apply andb_true_iff in Hs as [Hq Hs].
-  destruct (plain_path_lead q Hq) as (_ & _ & _ & D). cbn [app find_run]. rewrite D. apply IH, Hs.
-Qed.
-
-Lemma find_extract_spec paths c :
-  forallb plain_path paths = true -> forallb find_word_ok c = true -> c <> [] ->
-  find_exec (paths ++ s2l "-exec" :: c ++ [s2l ";"]) = Some [c].
-Proof.
-  intros Hp Hc Hne. unfold find_exec. destruct paths as [|p ps].
-  - cbn [app]. change (find_run (s2l "-exec" :: c ++ [s2l ";"]) FLead) with (find_run (c ++ [S ";"]) (FClause [] false)).
-    apply (find_spec_clause c [] false); assumption.
-  - rewrite find_spec_paths by (assumption || discriminate).
-    change (find_run (s2l "-exec" :: c ++ [s2l ";"]) FPaths) with (find_run (c ++ [S ";"]) (FClause [] false)).
-    apply (find_spec_clause c [] false); assumption.
-Qed.
-
-(* a lone + is an ordinary argument for find unless it follows {} ; the handler ends the clause there *)
-Lemma find_extract_refuted :
-  modelled (w ["find"; "."; "-exec"; "env"; "-u"; "+"; "rm"; "x"; ";"]) = Some (HWords [w ["env"; "-u"]] false) /\
-  wrapper_exec (w ["find"; "."; "-exec"; "env"; "-u"; "+"; "rm"; "x"; ";"]) = Some [w ["env"; "-u"; "+"; "rm"; "x"]].
-Proof. vm_compute. split; reflexivity. Qed.
-
-(* ================================================================== env *)
-Lemma dash_false_prefix p a : dash a = false -> prefixb (45 :: p) a = false.
-Proof.
-  intro H. destruct (dash_false_cases a H) as [->|(c & cs & -> & Hn)]; [reflexivity|].
-  cbn [prefixb]. apply N.eqb_neq in Hn. rewrite N.eqb_sym, Hn. reflexivity.
-Qed.
-
-Lemma dash_false_not_ddash a : dash a = false -> is "--" a = false.
-Proof.
-  intro H. destruct (dash_false_cases a H) as [->|(c & cs & -> & Hn)]; [reflexivity|].
-  unfold is. destruct (str_eqb_spec (c :: cs) (s2l "--")) as [E|]; [|reflexivity].
-  injection E as E _. subst c. exfalso. apply Hn. reflexivity.
-Qed.
-
-Lemma dash_false_not_dashword a : dash a = false -> str_eqb a [45] = false.
-Proof.
-  intro H. destruct (dash_false_cases a H) as [->|(c & cs & -> & Hn)]; [reflexivity|].
-  cbn [str_eqb]. apply N.eqb_neq in Hn. rewrite Hn. reflexivity.
-Qed.
-
-(* one step of the handler's scan over a word that does not start with a dash *)
-Lemma env_scan_nodash a r : dash a = false ->
-  env_scan (a :: r) = if has_eq a then env_scan r else HWords [a :: r] false.
-Proof.
-  intro H. cbn [env_scan]. rewrite (dash_false_not_ddash a H).
-  rewrite (dash_false_mem a ENV_SPLIT_FLAGS H) by (vm_compute; reflexivity). cbn [andb].
-  change SPLIT_EQ with (45 :: skipn 1 SPLIT_EQ). rewrite (dash_false_prefix _ a H).
-  unfold starts. change (s2l "-S") with [45; 83]. rewrite (dash_false_prefix _ a H). cbn [andb].
-  rewrite (dash_false_mem a ENV_FLAGS_WITH_ARG H) by (vm_compute; reflexivity). rewrite H. reflexivity.
-Qed.
-
-Definition assign_word (a : str) : bool := has_eq a && negb (dash a).
-
-Lemma env_scan_assigns assigns : forall l, forallb assign_word assigns = true ->
-  env_scan (assigns ++ l) = env_scan l.
-Proof.
-  induction assigns as [|a r IH]; intros l H; [reflexivity|].
-  cbn [forallb] in H. apply andb_true_iff in H as [Ha Hr]. unfold assign_word in Ha.
-  apply andb_true_iff in Ha as [He Hd]. apply negb_true_iff in Hd.
-  cbn [app]. rewrite env_scan_nodash by exact Hd. rewrite He. apply IH, Hr.
-Qed.
-
-Lemma drop_assign_app assigns : forall l, forallb assign_word assigns = true ->
-  drop_assign (assigns ++ l) = drop_assign l.
-Proof.
-  induction assigns as [|a r IH]; intros l H; [reflexivity|].
-  cbn [forallb] in H. apply andb_true_iff in H as [Ha Hr]. unfold assign_word, has_eq in Ha.
-  apply andb_true_iff in Ha as [He _]. cbn [app drop_assign]. rewrite He. apply IH, Hr.
-Qed.
-
-(* env [NAME=VALUE]... COMMAND ARG... : handler and env agree, for every command *)
-Lemma env_extract assigns c0 cs :
-  forallb assign_word assigns = true -> dash c0 = false -> has_eq c0 = false ->
-  env_h (s2l "env" :: assigns ++ c0 :: cs) = HWords [c0 :: cs] false /\
-  env_exec (assigns ++ c0 :: cs) = Some [c0 :: cs].
-Proof.
-  intros Ha Hd He. split.
-  - unfold env_h. cbn [tl']. rewrite env_scan_assigns by exact Ha. rewrite env_scan_nodash by exact Hd.
-    rewrite He. reflexivity.
-  - unfold env_exec. cbn [env_exec_f].
-    assert (G : getopt_x (fun _ => false) env_is_S env_spec (assigns ++ c0 :: cs) = GOk [] (assigns ++ c0 :: cs)).
-    { destruct assigns as [|a r].
-      - cbn [app getopt_x]. rewrite (word_kind_operand c0 Hd). reflexivity.
-      - cbn [forallb] in Ha. apply andb_true_iff in Ha as [Ha _]. unfold assign_word in Ha.
-        apply andb_true_iff in Ha as [_ Ha]. apply negb_true_iff in Ha.
-        cbn [app getopt_x]. rewrite (word_kind_operand a Ha). reflexivity. }
-    rewrite G. change (help_or_version []) with false. change (env_opts_ok []) with true. cbv iota. cbn [negb].
-    assert (F : (match assigns ++ c0 :: cs with w0 :: r => if str_eqb w0 [45] then r else assigns ++ c0 :: cs | [] => [] end)
-                = assigns ++ c0 :: cs).
-    { destruct assigns as [|a r].
-      - cbn [app]. rewrite (dash_false_not_dashword c0 Hd). reflexivity.
-      - cbn [forallb] in Ha. apply andb_true_iff in Ha as [Ha _]. unfold assign_word in Ha.
-        apply andb_true_iff in Ha as [_ Ha]. apply negb_true_iff in Ha.
-        cbn [app]. rewrite (dash_false_not_dashword a Ha). reflexivity. }
-    rewrite F. rewrite drop_assign_app by exact Ha. cbn [drop_assign]. unfold has_eq in He. rewrite He.
-    reflexivity.
-Qed.
-
-(* clusters ending in a value flag and abbreviated long options are read differently by env *)
-Lemma env_extract_refuted :
-  (modelled (w ["env"; "-iu"; "ls"; "rm"; "x"]) = Some (HWords [w ["ls"; "rm"; "x"]] false) /\
-   wrapper_exec (w ["env"; "-iu"; "ls"; "rm"; "x"]) = Some [w ["rm"; "x"]]) /\
-  (modelled (w ["env"; "--uns"; "ls"; "rm"; "x"]) = Some (HWords [w ["ls"; "rm"; "x"]] false) /\
-   wrapper_exec (w ["env"; "--uns"; "ls"; "rm"; "x"]) = Some [w ["rm"; "x"]]).
-Proof. vm_compute. repeat split; reflexivity. Qed.
-
-(* ================================================================== xargs *)
-Lemma xargs_extract c0 cs :
-  dash c0 = false -> xargs_unsafe (c0 :: cs) = false ->
-  xargs_h (s2l "xargs" :: c0 :: cs) = HWords [c0 :: cs] false /\ xargs_exec (c0 :: cs) = Some [c0 :: cs].
-Proof.
-  intros Hd Hu. split.
-  - unfold xargs_h. rewrite Hu. cbn [xargs_skip]. rewrite (dash_false_not_ddash c0 Hd), Hd. reflexivity.
-  - unfold xargs_exec, getopt_plus. cbn [getopt_x]. rewrite (word_kind_operand c0 Hd). reflexivity.
-Qed.
-
-Lemma xargs_extract_ddash c :
-  c <> [] ->
-  xargs_h (s2l "xargs" :: s2l "--" :: c) = HWords [c] false /\ xargs_exec (s2l "--" :: c) = Some [c].
-Proof.
-  intro H. destruct c as [|c0 cs]; [congruence|]. split; reflexivity.
-Qed.
-
-Lemma xargs_extract_refuted :
-  (modelled (w ["xargs"; "-0I"; "ls"; "rm"; "x"]) = Some (HWords [w ["ls"; "rm"; "x"]] false) /\
-   wrapper_exec (w ["xargs"; "-0I"; "ls"; "rm"; "x"]) = Some [w ["rm"; "x"]]) /\
-  (modelled (w ["xargs"; "--process-slot"; "ls"; "rm"; "x"]) = Some (HWords [w ["ls"; "rm"; "x"]] false) /\
-   wrapper_exec (w ["xargs"; "--process-slot"; "ls"; "rm"; "x"]) = Some [w ["rm"; "x"]]) /\
-  (* GNU -e takes only an attached argument: pinned by the test suite of /repo *)
-  (modelled (w ["xargs"; "-e"; "STOP"; "head"]) = Some (HWords [w ["head"]] false) /\
-   wrapper_exec (w ["xargs"; "-e"; "STOP"; "head"]) = Some [w ["STOP"; "head"]]).
-Proof. vm_compute. repeat split; reflexivity. Qed.
-
-(* ================================================================== fd *)
-Lemma fd_extract_refuted :
-  modelled (w ["fd"; "-x"; "ls"; ";"; "-x"; "rm"]) = Some (HWords [w ["ls"; ";"; "-x"; "rm"]] false) /\
-  wrapper_exec (w ["fd"; "-x"; "ls"; ";"; "-x"; "rm"]) = Some [w ["ls"]; w ["rm"]].
-Proof. vm_compute. split; reflexivity. Qed.
-
-(* ================================================================== env: option spellings *)
-Definition ENV_BOOL_WORDS : list str :=
-  map s2l ["-i"; "-v"; "-iv"; "-vi"; "-ivv"; "--ignore-environment"; "--debug"; "--list-signal-handling";
-           "--block-signal"; "--default-signal"; "--ignore-signal"; "--ignore-env"; "--deb"; "--list"].
-Definition ENV_SEP_FLAGS : list str := map s2l ["-u"; "--unset"; "-C"; "--chdir"].
-Definition ENV_UNSET_EQ : list str := map s2l ["--unset="; "--uns="].
-Definition ENV_CHDIR_EQ : list str := map s2l ["--chdir="; "--ch="].
-Definition name_ok (n : str) : bool := nonempty n && negb (mem_ch 61 n).
-
-(* env_opts ws unset : ws is a sequence of option words, unset collects the names given to -u/--unset *)
-Inductive env_opts : list str -> Prop :=
-| eo_nil : env_opts []
-| eo_bool b r : In b ENV_BOOL_WORDS -> env_opts r -> env_opts (b :: r)
-| eo_unset f v r : In f [s2l "-u"; s2l "--unset"] -> name_ok v = true -> env_opts r -> env_opts (f :: v :: r)
-| eo_chdir f v r : In f [s2l "-C"; s2l "--chdir"] -> env_opts r -> env_opts (f :: v :: r)
-| eo_unset_eq p v r : In p ENV_UNSET_EQ -> name_ok v = true -> env_opts r -> env_opts ((p ++ v) :: r)
-| eo_chdir_eq p v r : In p ENV_CHDIR_EQ -> env_opts r -> env_opts ((p ++ v) :: r)
-| eo_unset_att v r : name_ok v = true -> env_opts r -> env_opts ((s2l "-u" ++ v) :: r)
-| eo_chdir_att v r : v <> [] -> env_opts r -> env_opts ((s2l "-C" ++ v) :: r).
-
-(* ---- handler side *)
-Lemma env_scan_skip1 t r :
-  is "--" t = false -> mem_str t ENV_SPLIT_FLAGS = false -> prefixb SPLIT_EQ t = false ->
-  starts "-S" t = false -> mem_str t ENV_FLAGS_WITH_ARG = false -> dash t = true ->
-  env_scan (t :: r) = env_scan r.
-Proof. intros A B C D E F. cbn [env_scan]. rewrite A, B, C, D, E, F. reflexivity. Qed.
-
-Lemma env_bool_facts : forallb (fun t => negb (is "--" t) && negb (mem_str t ENV_SPLIT_FLAGS) && negb (prefixb SPLIT_EQ t)
-  && negb (starts "-S" t) && negb (mem_str t ENV_FLAGS_WITH_ARG) && dash t) ENV_BOOL_WORDS = true.
-Proof. vm_compute. reflexivity. Qed.
-Lemma env_sep_facts : forallb (fun t => negb (is "--" t) && negb (mem_str t ENV_SPLIT_FLAGS) && negb (prefixb SPLIT_EQ t)
-  && negb (starts "-S" t && Nat.ltb 2 (length t)) && mem_str t ENV_FLAGS_WITH_ARG) ENV_SEP_FLAGS = true.
-Proof. vm_compute. reflexivity. Qed.
-Lemma env_table_no_eq : forallb (fun e => negb (has_eq e)) ENV_FLAGS_WITH_ARG = true /\ forallb (fun e => negb (has_eq e)) ENV_SPLIT_FLAGS = true.
-Proof. split; vm_compute; reflexivity. Qed.
-Lemma env_att_facts : forallb (fun p => forallb (fun e => negb (prefixb p e) || str_eqb e p) ENV_FLAGS_WITH_ARG
-                                       && forallb (fun e => negb (prefixb p e) || str_eqb e p) ENV_SPLIT_FLAGS) [s2l "-u"; s2l "-C"] = true.
-Proof. vm_compute. reflexivity. Qed.
-
-Lemma env_scan_eq_word p v r :
-  In p (ENV_UNSET_EQ ++ ENV_CHDIR_EQ) -> env_scan ((p ++ v) :: r) = env_scan r.
-Proof.
-  intro Hp. apply env_scan_skip1.
-  - apply is_ddash_long. rewrite app_length.
-    assert (F : forallb (fun p => Nat.ltb 2 (length p)) (ENV_UNSET_EQ ++ ENV_CHDIR_EQ) = true) by (vm_compute; reflexivity).
-    pose proof (proj1 (forallb_forall _ _) F p Hp) as E. cbv beta in E. apply Nat.ltb_lt in E. lia.
-  - apply mem_str_false_of_eq; [|exact (proj2 env_table_no_eq)]. apply has_eq_app_l.
-    assert (F : forallb has_eq (ENV_UNSET_EQ ++ ENV_CHDIR_EQ) = true) by (vm_compute; reflexivity).
-    exact (proj1 (forallb_forall _ _) F p Hp).
-  - repeat (destruct Hp as [<-|Hp]; [reflexivity|]). destruct Hp.
-  - repeat (destruct Hp as [<-|Hp]; [reflexivity|]). destruct Hp.
-  - apply mem_str_false_of_eq; [|exact (proj1 env_table_no_eq)]. apply has_eq_app_l.
-    assert (F : forallb has_eq (ENV_UNSET_EQ ++ ENV_CHDIR_EQ) = true) by (vm_compute; reflexivity).
-    exact (proj1 (forallb_forall _ _) F p Hp).
-  - apply dash_app. repeat (destruct Hp as [<-|Hp]; [reflexivity|]). destruct Hp.
-Qed.
-
-Lemma env_scan_att_word p v r :
-  In p [s2l "-u"; s2l "-C"] -> v <> [] -> env_scan ((p ++ v) :: r) = env_scan r.
-Proof.
-  intros Hp Hv.
-  pose proof (proj1 (forallb_forall _ _) env_att_facts p Hp) as F. cbv beta in F. apply andb_true_iff in F as [F1 F2].
-  apply env_scan_skip1.
-  - apply is_ddash_long. rewrite app_length. destruct v; [congruence|].
-    destruct Hp as [<-|[<-|[]]]; cbn; lia.
-  - apply mem_str_no_extension; assumption.
-  - destruct Hp as [<-|[<-|[]]]; reflexivity.
-  - destruct Hp as [<-|[<-|[]]]; reflexivity.
-  - apply mem_str_no_extension; assumption.
-  - apply dash_app. destruct Hp as [<-|[<-|[]]]; reflexivity.
-Qed.
-
-Lemma env_opts_handler opts : env_opts opts -> forall l, env_scan (opts ++ l) = env_scan l.
-Proof.
-  induction 1 as [|b r Hb _ IH|f v r Hf Hv _ IH|f v r Hf _ IH|p v r Hp Hv _ IH|p v r Hp _ IH|v r Hv _ IH|v r Hv _ IH]; intro l.
-  - reflexivity.
-  - pose proof (proj1 (forallb_forall _ _) env_bool_facts b Hb) as F. cbv beta in F.
-    rewrite !andb_true_iff, !negb_true_iff in F. destruct F as [[[[[F1 F2] F3] F4] F5] F6].
-    cbn [app]. rewrite env_scan_skip1 by assumption. apply IH.
-  - assert (Hf' : In f ENV_SEP_FLAGS) by (destruct Hf as [<-|[<-|[]]]; cbn; tauto).
-    pose proof (proj1 (forallb_forall _ _) env_sep_facts f Hf') as F. cbv beta in F.
-    rewrite !andb_true_iff, !negb_true_iff in F. destruct F as [[[[F1 F2] F3] F4] F5].
-    cbn [app env_scan]. rewrite F1, F2, F3, F4, F5. cbn [andb]. apply IH.
-  - assert (Hf' : In f ENV_SEP_FLAGS) by (destruct Hf as [<-|[<-|[]]]; cbn; tauto).
-    pose proof (proj1 (forallb_forall _ _) env_sep_facts f Hf') as F. cbv beta in F.
-    rewrite !andb_true_iff, !negb_true_iff in F. destruct F as [[[[F1 F2] F3] F4] F5].
-    cbn [app env_scan]. rewrite F1, F2, F3, F4, F5. cbn [andb]. apply IH.
-  - cbn [app]. rewrite env_scan_eq_word by (apply in_or_app; auto). apply IH.
-  - cbn [app]. rewrite env_scan_eq_word by (apply in_or_app; auto). apply IH.
-  - cbn [app]. rewrite env_scan_att_word; [apply IH|cbn; tauto|].
-    unfold name_ok in Hv. destruct v; [discriminate|discriminate].
-  - cbn [app]. rewrite env_scan_att_word; [apply IH|cbn; tauto|exact Hv].
-Qed.
-
-(* ---- specification side *)
-Definition okO (o : list gopt) : Prop :=
-  help_or_version o = false /\ env_opts_ok o = true /\ has_short (c1 "0") o = false /\ has_long (S "null") o = false.
-
-Lemma okO_nil : okO [].
-Proof. repeat split. Qed.
-
-Lemma okO_app a b : okO a -> okO b -> okO (a ++ b).
-Proof.
-  unfold okO, help_or_version, env_opts_ok, has_long, has_short, short_args, long_args.
-  intros (A1 & A2 & A3 & A4) (B1 & B2 & B3 & B4).
-  rewrite !existsb_app, !flat_map_app in *.
-  apply orb_false_iff in A1 as [A1 A1']. apply orb_false_iff in B1 as [B1 B1'].
-  apply andb_true_iff in A2 as [A2 A2']. apply andb_true_iff in B2 as [B2 B2'].
-  rewrite !forallb_app in *. apply andb_true_iff in A2 as [A2a A2b]. apply andb_true_iff in B2 as [B2a B2b].
-  apply andb_true_iff in A2' as [A2c A2d]. apply andb_true_iff in A2d as [A2d A2e].
-  apply andb_true_iff in B2' as [B2c B2d]. apply andb_true_iff in B2d as [B2d B2e].
-  rewrite A1, A1', B1, B1', A3, A4, B3, B4, A2a, A2b, B2a, B2b, A2c, A2d, A2e, B2c, B2d, B2e. repeat split.
-Qed.
-
-Notation gx := (getopt_x (fun _ => false) env_is_S env_spec).
-
-Lemma gcons_assoc a b k : gcons a (gcons b k) = gcons (a ++ b) k.
-Proof. destruct k; cbn [gcons]; rewrite ?app_assoc; reflexivity. Qed.
-
-Lemma okO_unset_s v : name_ok v = true -> okO [GS (c1 "u") (Some v)].
-Proof. intro H. unfold okO, name_ok in *. repeat split. unfold env_opts_ok. cbn. rewrite H. reflexivity. Qed.
-Lemma okO_unset_l v : name_ok v = true -> okO [GL (S "unset") (Some v)].
-Proof. intro H. unfold okO, name_ok in *. repeat split. unfold env_opts_ok. cbn. rewrite H. reflexivity. Qed.
-Lemma okO_chdir_s v : okO [GS (c1 "C") (Some v)].
-Proof. repeat split. Qed.
-Lemma okO_chdir_l v : okO [GL (S "chdir") (Some v)].
-Proof. repeat split. Qed.
-
-Lemma env_opts_spec opts : env_opts opts -> forall l, exists o, okO o /\ gx (opts ++ l) = gcons o (gx l).
-Proof.
-  induction 1 as [|b r Hb _ IH|f v r Hf Hv _ IH|f v r Hf _ IH|p v r Hp Hv _ IH|p v r Hp _ IH|v r Hv _ IH|v r Hv _ IH]; intro l.
-  - exists []. split; [exact okO_nil|]. cbn [app]. destruct (gx l); reflexivity.
-  - destruct (IH l) as (o & Ho & E). cbn [app].
-    assert (X : exists o1, okO o1 /\ forall rest, gx (b :: rest) = gcons o1 (gx rest)).
-    { repeat (destruct Hb as [<-|Hb]; [eexists; split; [|intro rest; reflexivity]; repeat split|]). destruct Hb. }
-    destruct X as (o1 & Ho1 & E1). exists (o1 ++ o). split; [apply okO_app; assumption|].
-    rewrite E1, E, gcons_assoc. reflexivity.
-  - destruct (IH l) as (o & Ho & E). cbn [app]. destruct Hf as [<-|[<-|[]]].
-    + exists ([GS (c1 "u") (Some v)] ++ o). split; [apply okO_app; [apply okO_unset_s, Hv|exact Ho]|].
-      rewrite <- gcons_assoc, <- E. reflexivity.
-    + exists ([GL (S "unset") (Some v)] ++ o). split; [apply okO_app; [apply okO_unset_l, Hv|exact Ho]|].
-      rewrite <- gcons_assoc, <- E. reflexivity.
-  - destruct (IH l) as (o & Ho & E). cbn [app]. destruct Hf as [<-|[<-|[]]].
-    + exists ([GS (c1 "C") (Some v)] ++ o). split; [apply okO_app; [apply okO_chdir_s|exact Ho]|].
-      rewrite <- gcons_assoc, <- E. reflexivity.
-    + exists ([GL (S "chdir") (Some v)] ++ o). split; [apply okO_app; [apply okO_chdir_l|exact Ho]|].
-      rewrite <- gcons_assoc, <- E. reflexivity.
-  - destruct (IH l) as (o & Ho & E). cbn [app].
-    exists ([GL (S "unset") (Some v)] ++ o). split; [apply okO_app; [apply okO_unset_l, Hv|exact Ho]|].
-    rewrite <- gcons_assoc, <- E. repeat (destruct Hp as [<-|Hp]; [reflexivity|]). destruct Hp.
-  - destruct (IH l) as (o & Ho & E). cbn [app].
-    exists ([GL (S "chdir") (Some v)] ++ o). split; [apply okO_app; [apply okO_chdir_l|exact Ho]|].
-    rewrite <- gcons_assoc, <- E. repeat (destruct Hp as [<-|Hp]; [reflexivity|]). destruct Hp.
-  - destruct (IH l) as (o & Ho & E). cbn [app].
-    exists ([GS (c1 "u") (Some v)] ++ o). split; [apply okO_app; [apply okO_unset_s, Hv|exact Ho]|].
-    rewrite <- gcons_assoc, <- E. destruct v; [discriminate|reflexivity].
-  - destruct (IH l) as (o & Ho & E). cbn [app].
-    exists ([GS (c1 "C") (Some v)] ++ o). split; [apply okO_app; [apply okO_chdir_s|exact Ho]|].
-    rewrite <- gcons_assoc, <- E. destruct v; [congruence|reflexivity].
-Qed.
-
-(* env OPTION... [NAME=VALUE]... COMMAND ARG... for all option spellings of env_opts *)
-Lemma env_extract_opts opts assigns c0 cs :
-  env_opts opts -> forallb assign_word assigns = true -> dash c0 = false -> has_eq c0 = false ->
-  env_h (s2l "env" :: opts ++ assigns ++ c0 :: cs) = HWords [c0 :: cs] false /\
-  env_exec (opts ++ assigns ++ c0 :: cs) = Some [c0 :: cs].
-Proof.
-  intros Ho Ha Hd He. split.
-  - unfold env_h. cbn [tl']. rewrite (env_opts_handler opts Ho).
-    exact (proj1 (env_extract assigns c0 cs Ha Hd He)).
-  - destruct (env_opts_spec opts Ho (assigns ++ c0 :: cs)) as (o & (O1 & O2 & O3 & O4) & E).
-    unfold env_exec. cbn [env_exec_f]. rewrite E.
-    assert (G : gx (assigns ++ c0 :: cs) = GOk [] (assigns ++ c0 :: cs)).
-    { destruct assigns as [|a r].
-      - cbn [app getopt_x]. rewrite (word_kind_operand c0 Hd). reflexivity.
-      - cbn [forallb] in Ha. apply andb_true_iff in Ha as [Ha _]. unfold assign_word in Ha.
-        apply andb_true_iff in Ha as [_ Ha]. apply negb_true_iff in Ha.
-        cbn [app getopt_x]. rewrite (word_kind_operand a Ha). reflexivity. }
-    rewrite G. cbn [gcons]. rewrite app_nil_r, O1, O2. cbn [negb].
-    assert (F : (match assigns ++ c0 :: cs with w0 :: r => if str_eqb w0 [45] then r else assigns ++ c0 :: cs | [] => [] end)
-                = assigns ++ c0 :: cs).
-    { destruct assigns as [|a r].
-      - cbn [app]. rewrite (dash_false_not_dashword c0 Hd). reflexivity.
-      - cbn [forallb] in Ha. apply andb_true_iff in Ha as [Ha _]. unfold assign_word in Ha.
-        apply andb_true_iff in Ha as [_ Ha]. apply negb_true_iff in Ha.
-        cbn [app]. rewrite (dash_false_not_dashword a Ha). reflexivity. }
-    rewrite F. rewrite drop_assign_app by exact Ha. cbn [drop_assign]. unfold has_eq in He. rewrite He.
-    rewrite O3, O4. reflexivity.
-Qed.
